@@ -84,7 +84,7 @@ def run(tier, seed):
     with open(irp, "w") as f:
         json.dump(doc, f)
     vc.cargo_build("vh")
-    vh = os.path.join(vc.HARNESS, "target", "debug", "vh")
+    vh = os.path.join(vc.TARGET, "debug", "vh")
     trees = []
     for n in range(3):
         od = os.path.join(d, "gen%d" % n)
